@@ -948,11 +948,29 @@ impl Debugger {
     /// Do a single step (until debugee reaches a different source line).
     ///
     /// **! change exploration context**
+    /// A step may run into the end of the process. The steppers report it as
+    /// [`Error::ProcessExit`]; what a resume does when it meets the exit has to be done here too.
+    fn finalize_if_exited<T>(&mut self, step_result: Result<T, Error>) -> Result<T, Error> {
+        if let Err(Error::ProcessExit(code)) = &step_result
+            && !self.debugee.is_exited()
+        {
+            self.debugee.set_exited();
+            // ignore all possible errors on watchpoints and breakpoints disabling
+            _ = self
+                .watchpoints
+                .clear_local_disable_global(self.debugee.tracee_ctl(), &mut self.breakpoints);
+            _ = self.breakpoints.disable_all_breakpoints(&self.debugee);
+            self.hooks.on_exit(*code);
+        }
+        step_result
+    }
+
     pub fn step_into(&mut self) -> Result<(), Error> {
         disable_when_not_stared!(self);
         self.ecx_restore_frame()?;
 
-        match self.step_in()? {
+        let step_result = self.step_in();
+        match self.finalize_if_exited(step_result)? {
             StepResult::Done => self.execute_on_step_hook(),
             StepResult::SignalInterrupt { signal, quiet } if !quiet => {
                 self.hooks.on_signal(signal);
@@ -975,7 +993,8 @@ impl Debugger {
         disable_when_not_stared!(self);
         self.ecx_restore_frame()?;
 
-        match self.single_step_instruction()? {
+        let step_result = self.single_step_instruction();
+        match self.finalize_if_exited(step_result)? {
             Some(StopReason::SignalStop(_, sign)) => {
                 self.hooks.on_signal(sign);
                 Ok(())
@@ -1053,7 +1072,8 @@ impl Debugger {
     pub fn step_out(&mut self) -> Result<(), Error> {
         disable_when_not_stared!(self);
         self.ecx_restore_frame()?;
-        self.step_out_frame()?;
+        let step_result = self.step_out_frame();
+        self.finalize_if_exited(step_result)?;
         self.execute_on_step_hook()
     }
 
@@ -1061,7 +1081,8 @@ impl Debugger {
     pub fn step_over(&mut self) -> Result<(), Error> {
         disable_when_not_stared!(self);
         self.ecx_restore_frame()?;
-        match self.step_over_any()? {
+        let step_result = self.step_over_any();
+        match self.finalize_if_exited(step_result)? {
             StepResult::Done => self.execute_on_step_hook(),
             StepResult::SignalInterrupt { signal, quiet } if !quiet => {
                 self.hooks.on_signal(signal);
